@@ -126,7 +126,8 @@ Outcome(s, o) ==
   ELSE IF o.op = "allow_write" THEN
      [f |-> s.f, g |-> s.g, ms |-> {[s.m EXCEPT !.mode = "r+b"]}, causes |-> {}]
   ELSE IF o.op = "enter" THEN
-     \* only modelled on a closed object (nested with on one object is not)
+     \* also on an object that is already inside a context (nested `with` on one object): the
+     \* handle is re-opened with the current mode, the previous handle is dropped
      [f |-> s.f, g |-> s.g,
       ms |-> {[mode |-> s.m.mode, inside |-> TRUE, hw |-> (s.m.mode = "r+b"), fds |-> 1]},
       causes |-> {}]
